@@ -13,6 +13,7 @@ import (
 	"github.com/douban/gobeansdb/config"
 	"github.com/douban/gobeansdb/loghub"
 	"github.com/douban/gobeansdb/utils"
+	"github.com/douban/gobeansdb/vhook"
 )
 
 var (
@@ -54,9 +55,11 @@ func (store *HStore) scanBuckets() (err error) {
 		if len(datas) == 0 {
 			if Conf.NumBucket > 1 {
 				logger.Warnf("remove empty bucket dir %s", path)
+				vhook.FS(vhook.Before, "removeall", path, 0, 0)
 				if err = os.RemoveAll(path); err != nil {
 					logger.Errorf("fail to delete empty bucket %s", path)
 				}
+				vhook.FS(vhook.After, "removeall", path, 0, 0)
 			}
 		} else {
 			logger.Infof("found bucket %x", id)
@@ -303,6 +306,7 @@ func (store *HStore) GC(bucketID, beginChunkID, endChunkID, noGCDays int, merge,
 	if err = checkGC(); err != nil {
 		return
 	}
+	vhook.PointI("hstore.gc.afterCheck", int64(bucketID), 0)
 
 	begin, end, err = bkt.gcCheckRange(beginChunkID, endChunkID, noGCDays)
 	if err != nil {
